@@ -66,6 +66,13 @@ CHECKS = {
             'exactly as the model predicts afterwards.',
             'Frame finder over-approximates acceptable frames (sound); Twisted reactor behaviour modelled; fake transports.',
             'DESIGN.md 4 C12'),
+    'C17': ('hypothesis multi-connection scripts (interleaved chunk schedules) played to sync / asyncio / Twisted front-ends; differential oracle + reference model in completion order',
+            'Generated scripts of 1..3 connections (or datagram peers) with chunked request streams and a generated merge '
+            'order are played identically to the sync threaded (handler threads in lock-step), asyncio and Twisted front-ends; '
+            'per-connection response byte streams and final table dumps must be identical across front-ends and must equal '
+            'what the reference model predicts when requests are applied in completion order.',
+            'Diagnostic-counter requests and broadcast are outside the comparison (not common to all front-ends).',
+            'DESIGN.md 4 C17'),
     'C18': ('hypothesis operation histories on blocks / slave contexts / server contexts vs a dict model; exhaustive small-block sweeps',
             'Generated histories of validate/get/set/reset on sequential and sparse blocks with boundary-directed addresses, '
             'of function-code-addressed operations on a slave context (zero-mode on/off), and of set/get/del/contains on '
